@@ -10,6 +10,7 @@ import GambitV.Gen.PyLabels
 import GambitV.Gen.PyReportable
 import GambitV.Gen.PyClassify
 import GambitV.Gen.PyResultItem
+import GambitV.Gen.PyRefDb
 import GambitV.Model.Bulk
 import GambitV.Model.Indexing
 import GambitV.Spec.Taxonomy
@@ -100,5 +101,13 @@ def closestList (ds : List Nat) (n : Nat) (real : String) : Option String :=
   cmp "get_result_item" Gen.get_result_item.untranslatable
     (resStr (fun (r : Py.QueryResultItem) => natsOf (r.closest_genomes.map (·.genome)) ++ "/" ++ toString r.classifier_result.closest_match.genome)
       (Gen.get_result_item F (List.replicate ds.length 0) () { classify_strict := false, chunksize := none, report_closest := (n : Int) } ds 0)) real
+
+/-- `ReferenceDatabase.__init__`: (genomes, sig_indices) in the wire form of `c04.load` -/
+def refdbInit (attr : Option Bool) (gids : List (Option Nat)) (sids : List Nat) (real : String) : Option String :=
+  let g := match Gen.refdb_init gids attr sids () () with
+    | .ok (gs, ps) => if gs.isEmpty then "ok:-" else "ok:" ++ ";".intercalate ((gs.zip ps).map fun gp => s!"{gp.1},{gp.2}")
+    | .raised e => "err:" ++ e.name
+    | .fuelOut => "!fuel"
+  cmp "ReferenceDatabase.__init__" Gen.refdb_init.untranslatable g real
 
 end Driver.PyGen
